@@ -41,13 +41,13 @@ Qed.
 (* frame: everything a reference callback cannot touch, as one tuple *)
 Definition rest (s : st) :=
   (kctx s, keep s, rcancel s, nonce s, waitch s, (resolved s, value s, verr s, vrel s, vgen s), (target s, terr s),
-   gs s, rellog s, relacts s, panicked s).
+   gs s, rellog s, relacts s, panicked s, rootc s).
 
 Lemma rest_fields s s' : rest s' = rest s ->
   kctx s' = kctx s /\ keep s' = keep s /\ rcancel s' = rcancel s /\ nonce s' = nonce s /\ waitch s' = waitch s /\
   resolved s' = resolved s /\ value s' = value s /\ verr s' = verr s /\ vrel s' = vrel s /\ vgen s' = vgen s /\
   target s' = target s /\ terr s' = terr s /\ gs s' = gs s /\ rellog s' = rellog s /\ relacts s' = relacts s /\
-  panicked s' = panicked s.
+  panicked s' = panicked s /\ rootc s' = rootc s.
 Proof. unfold rest. intros H. inversion H. repeat split; reflexivity || assumption. Qed.
 
 Ltac frame := intros; reflexivity.
@@ -287,6 +287,29 @@ Proof.
   - rewrite app_length. cbn [length]. now rewrite Nat.add_1_r.
 Qed.
 
+(* cancelling a root context is a series of cancellations of resolve contexts *)
+Lemma cancel_root_ind (P : st -> Prop) s c :
+  (forall s0 og, P s0 -> P (cancel_g s0 og)) -> P (set_rootc s (c :: rootc s)) -> P (cancel_root s c).
+Proof.
+  intros Hc H0. unfold cancel_root. generalize (seq 0 (length (gs s))). intros l. revert H0. generalize (set_rootc s (c :: rootc s)).
+  induction l as [|g l IH]; intros s0 H0; [exact H0|]. cbn [fold_left]. apply IH.
+  destruct (Nat.eqb (groot (getg s0 g)) c); [now apply Hc | exact H0].
+Qed.
+
+Lemma cancel_root_frame s c :
+  refs (cancel_root s c) = refs s /\ relacts (cancel_root s c) = relacts s /\ conss (cancel_root s c) = conss s /\
+  rellog (cancel_root s c) = rellog s /\ panicked (cancel_root s c) = panicked s /\ resolved (cancel_root s c) = resolved s /\
+  value (cancel_root s c) = value s /\ verr (cancel_root s c) = verr s.
+Proof.
+  apply (cancel_root_ind (fun s0 => refs s0 = refs s /\ relacts s0 = relacts s /\ conss s0 = conss s /\ rellog s0 = rellog s /\
+                                    panicked s0 = panicked s /\ resolved s0 = resolved s /\ value s0 = value s /\ verr s0 = verr s)).
+  - intros s0 og H. unfold cancel_g. destruct og as [g|]; [|exact H]. destruct (nth_error (gs s0) g); exact H.
+  - repeat split; reflexivity.
+Qed.
+
+Lemma cancel_root_chain s c : InvCh s -> InvCh (cancel_root s c).
+Proof. intros H. apply cancel_root_ind; [intros s0 og; apply cancel_g_chain | apply (InvCh_ext s); auto]. Qed.
+
 Lemma set_context_chain s c : InvCh s -> InvCh (fst (set_context s c)).
 Proof.
   intros H. unfold set_context. destruct (Nat.eqb (kctx s) c); [exact H|]. cbn [fst].
@@ -496,6 +519,7 @@ Proof.
   - destruct (nth_error (conss s) c); [apply (InvCh_ext s); auto | exact H].
   - now apply fire_section_chain.
   - now apply cb_return_chain.
+  - destruct (Nat.eqb c 0); [exact H | now apply cancel_root_chain].
 Qed.
 
 Lemma init_chain k : InvCh (init k).
